@@ -501,15 +501,21 @@ Proof.
 Qed.
 
 (* Tx.Hash: the cache is written INTO the table, at the index *)
-Theorem hTx_Hash_tie next heap p (t : mwtx) : nth_error heap (N.to_nat p) = Some (g_tx t) ->
+(* (phase 5) t.msgTx.TxHash() panics on a nil message: the message of t must not be nil *)
+Theorem hTx_Hash_tie next heap p (t : mwtx) : mt_val _ (w_msg _ _ t) <> None -> nth_error heap (N.to_nat p) = Some (g_tx t) ->
   Kernels4.hTx_Hash tok TxHash heap (Some p)
   = let '(_, t', ph) := wtx_hash _ _ _ W next t in Ok (Some (snd ph), Go.set_at heap (N.to_nat p) (g_tx t')).
 Proof.
-  intros Hp. unfold Kernels4.hTx_Hash. rewrite (hget_nth _ _ _ Hp). cbn [rbind].
+  intros Hnn Hp. unfold Kernels4.hTx_Hash. rewrite (hget_nth _ _ _ Hp). cbn [rbind].
   unfold wtx_hash. destruct t as [tp m [[hp hv]|] ix];
-    cbn [Kernels3_Block.g_tx w_hash w_msg w_ptr w_index option_map Kernels3.bchutil_Tx_txHash Go3.isnil negb rbind snd].
+    cbn [Kernels3_Block.g_tx w_hash w_msg w_ptr w_index option_map Kernels3.bchutil_Tx_txHash Go3.isnil negb rbind snd] in Hnn |- *.
   - rewrite set_at_same by exact Hp. reflexivity.
-  - rewrite hset_nth by (apply nth_error_Some; rewrite Hp; discriminate). reflexivity.
+  - assert (Hd : forall B (k : res B), (do _ <- Go3.deref (Kernels3.bchutil_Tx_msgTx tok
+                 (g_tx {| w_ptr := tp; w_msg := m; w_hash := None; w_index := ix |})) ;; k) = k).
+    { intros B k. unfold Kernels3_Block.g_tx. cbn [Kernels3.bchutil_Tx_msgTx w_msg].
+      destruct (mt_val txc m) as [x|]; [reflexivity|now elim Hnn]. }
+    rewrite Hd.
+    rewrite hset_nth by (apply nth_error_Some; rewrite Hp; discriminate). reflexivity.
 Qed.
 
 Theorem hTx_nil_tie heap i :
@@ -669,7 +675,13 @@ Qed.
 (* The value translation could not express this function: tx.Hash() writes the cache through the pointer that
    b.transactions[txNum] also holds.  Here the write goes to heap[p], and slot k of the block holds p: R is
    preserved with the model's  upd (b_txs ..) k (Some t'). *)
+(* (phase 5) tx.Hash() panics on a wrapped transaction whose message is nil: the transaction Tx(i) yields must
+   have a message (tx_msg_ok); true of every world built from a deserialised block (deser_tx_nonnil) *)
+Definition tx_msg_ok (w : mworld) (i : Z) : Prop :=
+  forall w1 k t, do_tx _ _ _ w i = (w1, Ok (k, t)) -> mt_val _ (w_msg _ _ t) <> None.
+
 Theorem hBlock_TxHash_tie (w : mworld) heap gb i :
+  tx_msg_ok w i ->
   R w (heap, gb) ->
   (i < 2 ^ 64)%Z -> (Z.of_nat (length (mb_txs _ _ (b_msg _ _ _ (w_blk _ _ _ w)))) < 2 ^ 64)%Z ->
   match step _ _ _ W w (OpTxHash i) with
@@ -686,13 +698,13 @@ Theorem hBlock_TxHash_tie (w : mworld) heap gb i :
   | _ => False
   end.
 Proof.
-  intros HR Hi Hn. pose proof (hBlock_Tx_tie w heap gb i HR Hi Hn) as Htx.
+  intros Hok HR Hi Hn. pose proof (hBlock_Tx_tie w heap gb i HR Hi Hn) as Htx.
   unfold step, Kernels4.hBlock_TxHash.
   destruct (do_tx _ _ _ w i) as [w1 [[k t]|c|q]] eqn:Edo.
   - destruct Htx as (p & gb1 & heap1 & Hcall & HR1 & Hslot & Hobj & _).
     destruct (do_tx_ok _ _ _ _ _ Edo) as (Hk & _ & _ & _).
     rewrite Hcall. cbn [rbind N.eqb negb].
-    rewrite (hTx_Hash_tie (w_next _ _ _ w1) heap1 p t Hobj).
+    rewrite (hTx_Hash_tie (w_next _ _ _ w1) heap1 p t (Hok _ _ _ Edo) Hobj).
     pose proof (wtx_hash_cached (w_next _ _ _ w1) t) as Hc.
     destruct (wtx_hash _ _ _ W (w_next _ _ _ w1) t) as [[n' t'] ph]. cbn [rbind fst snd].
     destruct HR1 as (trs1 & -> & HRs1). cbn [h_block Kernels4.bchutil_Block_h_transactions] in Hslot.
@@ -732,6 +744,7 @@ Qed.
 (* b.Tx(i), then b.TxHash(i), then b.Tx(i) again: the SAME object p, and heap[p] has the hash cached - the
    TxHash call wrote into the object that the first caller of Tx still holds *)
 Theorem TxHash_shared_tie (w : mworld) heap gb i p e gb1 heap1 :
+  tx_msg_ok w i -> tx_msg_ok (fst (do_tx _ _ _ w i)) i ->
   R w (heap, gb) ->
   (i < 2 ^ 64)%Z -> (Z.of_nat (length (mb_txs _ _ (b_msg _ _ _ (w_blk _ _ _ w)))) < 2 ^ 64)%Z ->
   Kernels4.hBlock_Tx hdr tok heap gb i = Ok (Some p, e, gb1, heap1) ->
@@ -745,8 +758,8 @@ Theorem TxHash_shared_tie (w : mworld) heap gb i p e gb1 heap1 :
        R w1 (heap1, gb1) /\ R (fst (step _ _ _ W w1 (OpTxHash i))) (heap2, gb1)
        /\ exists hp, snd (step _ _ _ W w1 (OpTxHash i)) = OHashV _ hp hv.
 Proof.
-  intros HR Hi Hn Hcall. pose proof (hBlock_Tx_tie w heap gb i HR Hi Hn) as Htx.
-  destruct (do_tx _ _ _ w i) as [w1 [[k t]|c|q]] eqn:Edo.
+  intros Hok Hok1 HR Hi Hn Hcall. pose proof (hBlock_Tx_tie w heap gb i HR Hi Hn) as Htx.
+  destruct (do_tx _ _ _ w i) as [w1 [[k t]|c|q]] eqn:Edo; cbn [fst] in Hok1.
   2:{ destruct Htx as (_ & _ & Hc). rewrite Hc in Hcall. discriminate. }
   2:{ rewrite Htx in Hcall. discriminate. }
   destruct Htx as (p' & gb' & heap' & Hc & HR1 & Hslot & Hobj & _).
@@ -764,11 +777,11 @@ Proof.
                   = let '(_, t', ph) := wtx_hash _ _ _ W (w_next _ _ _ w1) t in
                     Ok (Some (snd ph), 0%N, gb', Go.set_at heap' (N.to_nat p') (g_tx t'))).
   { unfold Kernels4.hBlock_TxHash. rewrite Hhit. cbn [rbind N.eqb negb].
-    rewrite (hTx_Hash_tie (w_next _ _ _ w1) heap' p' t Hobj).
+    rewrite (hTx_Hash_tie (w_next _ _ _ w1) heap' p' t (Hok _ _ _ Edo) Hobj).
     destruct (wtx_hash _ _ _ W (w_next _ _ _ w1) t) as [[n' t'] ph]. reflexivity. }
   (* the model's step from w1 *)
   assert (Hn1 : (Z.of_nat (length (mb_txs _ _ (b_msg _ _ _ (w_blk _ _ _ w1)))) < 2 ^ 64)%Z) by (rewrite Hmsg; exact Hn).
-  pose proof (hBlock_TxHash_tie w1 heap' gb' i HR1 Hi Hn1) as Hstep.
+  pose proof (hBlock_TxHash_tie w1 heap' gb' i Hok1 HR1 Hi Hn1) as Hstep.
   destruct (wtx_hash _ _ _ W (w_next _ _ _ w1) t) as [[n' t'] ph] eqn:Ew.
   exists (snd ph), (Go.set_at heap' (N.to_nat p') (g_tx t')), (g_tx t').
   split; [exact Hhash|]. split; [apply Hhit|].
